@@ -34,6 +34,24 @@
 (* strictly; Relay_udp_seeded.cfg (both TRUE = the code as found) checks                          *)
 (* <>(returned \/ devSpin \/ devBlocked); Relay_udp_lasso.cfg (both TRUE, strict property)        *)
 (* MUST fail: TLC exhibits the lasso.  Relay_udp_tmpl.cfg is the same with open bounds.            *)
+(* Time (round 3).  Neither relay may let time alone end a direction that is live.  Time is an          *)
+(* environment action: Tick(e) makes a deadline the relay has put on conn e expire (whatever traffic      *)
+(* flows in between), MonTick is one tick of the idle timer of tunnel.Tunnel.monitorTimeout, the            *)
+(* goroutine that runs next to runDataCopy and closes both conns (MonFire) after IdleMax ticks without       *)
+(* a reset; UTick is the same for a deadline on the UDP socket.  Deviations:                                 *)
+(*   DevDeadlineAt/DevDeadlineHits - an ABSOLUTE deadline armed when one direction finishes ("halfclose",   *)
+(*                  seeded fault C12/r3m2) or when the relay starts ("start"), failing Reads, Writes or both: *)
+(*                  Relay_bidi_show_deadline / _show_wdeadline / _show_startdeadline.cfg MUST fail             *)
+(*                  (BNoSpuriousEnd, BNoSpuriousWriteEnd)                                                      *)
+(*   DevMonNoFeed - THE CODE AS FOUND before patch C12-4: nothing signals activityChan, the monitor's          *)
+(*                  "idle" timer is an absolute lifetime of 5 minutes.  Relay_bidi_show_monnofeed.cfg MUST      *)
+(*                  fail (BMonitorOnlyIdle); Relay_bidi_monitor.cfg = the patched monitor, passes               *)
+(*   DevSockDeadline - an absolute read deadline on the UDP socket: Relay_udp_show_sockdeadline.cfg MUST        *)
+(*                  fail (UNoSpuriousEnd)                                                                       *)
+(* Batch writer (round 3): SockBatch = the UDP side is a real *net.UDPConn, flush() hands the pending            *)
+(* datagrams to udpBatchWriter whose add() refuses what does not fit its BatchSize slots;                        *)
+(* DevNoInnerFlush (seeded fault C12/r3m1) removes the flush inside the unpack loop:                              *)
+(* Relay_udp_show_noinnerflush.cfg MUST fail (UBatchFits / UCompleteAny); Relay_udp_batch.cfg passes.              *)
 (* Not modelled: zero-length datagrams (dropped by g1, unrepresentable in the encoding), UDP        *)
 (* socket write errors other than "closed", a tunnel whose write side fails before its read side.  *)
 EXTENDS Naturals, Sequences, FiniteSets, TLC, Json
@@ -43,7 +61,13 @@ CONSTANTS
   MaxSend,       \* number of payload units each endpoint may send
   EofWithData,   \* BOOLEAN: a Read may return its last bytes together with io.EOF
   ShapesA, ShapesB, \* conn shapes of the local side / the tunnel side (cfg: <- LocalShapes / AllShapes ...)
-  DevDrainDeadline,       \* seeded fault: an absolute read deadline on the surviving direction's source after a half-close
+  DevDeadlineAt,   \* "none" (the code) | "halfclose" (seeded fault C12/r3m2: when one direction has finished) | "start"
+                   \* (when the relay starts): the relay puts an ABSOLUTE deadline on a conn of a live direction
+  DevDeadlineHits, \* subset of {"read", "write"}: what an expired deadline fails (SetReadDeadline / SetWriteDeadline / SetDeadline)
+  Monitor,         \* TRUE: the relay runs under tunnel.Tunnel (Start: go monitorTimeout(); go runDataCopy())
+  IdleMax,         \* the monitor's idle timeout (5 minutes in the code), in ticks
+  DevMonNoFeed,    \* the code as found before C12-4: nothing ever signals activityChan - the "idle" timer is an
+                   \* absolute lifetime: the tunnel is closed IdleMax ticks after Start whatever traffic flows
   DevCloseWriterFallback, \* seeded fault: the adapter's CloseWrite closes a Writer that is only an io.Closer
   \* ---- (ii) UDP
   Classes,       \* datagram size classes = model sizes (1, 2, 3 ~ "255", 4 ~ "65535")
@@ -64,6 +88,8 @@ CONSTANTS
                  \* separate goroutine (writeLoop) sends it on the socket later
   DevQueueRefs,  \* seeded fault C12/r2m2 (not in the code): the queue keeps the slice it was given - a
                  \* REFERENCE into the relay's readBuf - instead of a copy
+  DevSockDeadline, \* deviation (not in the code): an absolute read deadline on the UDP socket - g1 leaves its loop on the
+                 \* time-out although the socket is open and the tunnel alive
   DevDropOnClose, \* the code as found before C12-3: writeLoop returns as soon as the conn is closed and
                  \* abandons what is still queued (ghost devDropped)
   \* ---- generation
@@ -79,7 +105,9 @@ VARIABLES
   cp,      \* [dir -> [pc, off, n, rerr, werr]]      copier goroutines
   bmain,   \* "wait" | "returned"
   rclosed, \* [end -> BOOLEAN] relay called conn.Close()
-  dl,      \* [end -> "none" | "armed" | "expired"] read deadline the relay has put on that conn
+  dl,      \* [end -> "none" | "armed" | "expired"] deadline the relay has put on that conn
+  mon,     \* tunnel.Tunnel.monitorTimeout: [idle, quiet, fired]  idle = ticks on the monitor's timer since it was last
+           \* reset, quiet = (ghost) ticks since data last moved, fired = the monitor has closed the tunnel
   bhist,   \* behaviour so far (generation only)
   \* (ii)
   par,     \* behaviour parameters [t, u, cut, how, chunk, pace]
@@ -101,10 +129,10 @@ VARIABLES
   umain,   \* "wait" | "returned"
   devSpin, devBlocked, devAlias, devDropped
 
-bvars == <<shape, ep, cp, bmain, rclosed, dl, bhist>>
+bvars == <<shape, ep, cp, bmain, rclosed, dl, mon, bhist>>
 uvars == <<par, tpos, g2, wq, udpGot, g1, lock, tw, usent, upos, tunGot, timerOn, sockClosed, tunHalfClosed, umain, devSpin, devBlocked, devAlias, devDropped>>
 vars  == <<bvars, uvars>>
-bview == <<shape, ep, cp, bmain, rclosed, dl, uvars>>   \* VIEW of the generation cfg: everything but bhist
+bview == <<shape, ep, cp, bmain, rclosed, dl, mon, uvars>>   \* VIEW of the generation cfg: everything but bhist
 
 (*********************************************************************************************)
 (* (i) Bidirectional                                                                         *)
@@ -138,12 +166,21 @@ Effect(sh) == IF sh \in {"direct-cw", "same-cw", "split-cw"} THEN "eof"
               ELSE "none"
 Cw(e) == Effect(shape[e]) = "eof"
 
+\* an expired deadline fails the Reads / the Writes of that conn (time-out error)
+RdExpired(e) == dl[e] = "expired" /\ "read" \in DevDeadlineHits
+WrExpired(e) == dl[e] = "expired" /\ "write" \in DevDeadlineHits
+\* only conns handed over directly can take a deadline: the iocopy adapter has no Set*Deadline
+Arm(e, cur) == IF shape[e] \in LocalShapes /\ cur = "none" THEN "armed" ELSE cur
+Mon0 == [idle |-> 0, quiet |-> 0, fired |-> FALSE]
+
 BIdle == /\ shape \in [Ends -> AllShapes] /\ shape["A"] \in ShapesA /\ shape["B"] \in ShapesB
          /\ ep = [e \in Ends |-> [sent |-> 0, wr |-> "open", rd |-> "open", got |-> 0, eofSeen |-> FALSE]]
          /\ cp = [d \in Dirs |-> [pc |-> "read", off |-> 0, n |-> 0, rerr |-> "none", werr |-> FALSE]]
          /\ bmain = "wait"
          /\ rclosed = [e \in Ends |-> FALSE]
-         /\ dl = [e \in Ends |-> "none"]
+         \* DevDeadlineAt = "start" (not in the code): a lifetime deadline set before the copy loops start
+         /\ dl = [e \in Ends |-> IF DevDeadlineAt = "start" THEN Arm(e, "none") ELSE "none"]
+         /\ mon = Mon0
          /\ bhist = IF Emit THEN <<[a |-> "Init", shA |-> shape["A"], shB |-> shape["B"]]>> ELSE <<>>
 
 BH(step) == IF Emit THEN /\ bhist' = Append(bhist, step) /\ Out(bhist') ELSE bhist' = bhist
@@ -154,50 +191,58 @@ BH(step) == IF Emit THEN /\ bhist' = Append(bhist, step) /\ Out(bhist') ELSE bhi
 EpSend(e) == /\ bmain = "wait" /\ ep[e].wr = "open" /\ ep[e].sent < MaxSend
              /\ ep' = [ep EXCEPT ![e].sent = @ + 1]
              /\ BH([a |-> "Send", e |-> e])
-             /\ UNCHANGED <<shape, cp, bmain, rclosed, dl>>
+             /\ UNCHANGED <<shape, cp, bmain, rclosed, dl, mon>>
 EpHalfClose(e) == /\ bmain = "wait" /\ ep[e].wr = "open"
                   /\ ep' = [ep EXCEPT ![e].wr = "shut"]
                   /\ BH([a |-> "HalfClose", e |-> e])
-                  /\ UNCHANGED <<shape, cp, bmain, rclosed, dl>>
+                  /\ UNCHANGED <<shape, cp, bmain, rclosed, dl, mon>>
 EpClose(e) == /\ bmain = "wait" /\ ep[e].rd = "open"
               /\ ep' = [ep EXCEPT ![e].wr = "shut", ![e].rd = "closed"]
               /\ BH([a |-> "Close", e |-> e])
-              /\ UNCHANGED <<shape, cp, bmain, rclosed, dl>>
+              /\ UNCHANGED <<shape, cp, bmain, rclosed, dl, mon>>
 EpError(e) == /\ bmain = "wait" /\ ep[e].rd = "open"
               /\ ep' = [ep EXCEPT ![e].wr = "err", ![e].rd = "closed"]
               /\ BH([a |-> "Error", e |-> e])
-              /\ UNCHANGED <<shape, cp, bmain, rclosed, dl>>
+              /\ UNCHANGED <<shape, cp, bmain, rclosed, dl, mon>>
 EnvB == \E e \in Ends : EpSend(e) \/ EpHalfClose(e) \/ EpClose(e) \/ EpError(e)
 
 \* ---- copier goroutine d: for { nr, readErr := src.Read(buf); ... } ---------------------------
 Avail(d) == ep[Src(d)].sent - cp[d].off
 
+\* data has moved through the tunnel conn: really not idle (quiet); the monitor's timer is reset only if
+\* somebody tells the monitor (the patched code: every Read/Write of the tunnel conn with n > 0 signals
+\* activityChan; the code as found: nobody does)
+Moved == mon' = IF Monitor /\ ~mon.fired THEN [mon EXCEPT !.quiet = 0, !.idle = IF DevMonNoFeed THEN @ ELSE 0] ELSE mon
+
 \* src.Read returns nr > 0 (and possibly io.EOF with the last bytes)
 CReadData(d) ==
-  /\ cp[d].pc = "read" /\ ep[Src(d)].wr # "err" /\ Avail(d) > 0 /\ ~rclosed[Src(d)] /\ dl[Src(d)] # "expired"
+  /\ cp[d].pc = "read" /\ ep[Src(d)].wr # "err" /\ Avail(d) > 0 /\ ~rclosed[Src(d)] /\ ~RdExpired(Src(d))
   /\ \E n \in 1..Avail(d) : \E eof \in {FALSE} \cup (IF EofWithData /\ ep[Src(d)].wr = "shut" /\ n = Avail(d) THEN {TRUE} ELSE {}) :
        /\ cp' = [cp EXCEPT ![d].pc = "write", ![d].n = n, ![d].off = @ + n, ![d].rerr = IF eof THEN "eof" ELSE "none"]
        /\ BH([a |-> "Read", d |-> d, n |-> n, end |-> IF eof THEN "eof" ELSE "none"])
+  /\ Moved
   /\ UNCHANGED <<shape, ep, bmain, rclosed, dl>>
 \* src.Read returns (0, io.EOF) or (0, err): leave the loop
 CReadEnd(d) ==
   /\ cp[d].pc = "read"
   /\ \/ ep[Src(d)].wr = "err"
      \/ ep[Src(d)].wr = "shut" /\ Avail(d) = 0
-     \/ rclosed[Src(d)]                             \* reading a conn the relay has closed itself
-     \/ dl[Src(d)] = "expired"                      \* i/o timeout: a read deadline in the past fails every Read
-  /\ LET k == IF ep[Src(d)].wr = "err" \/ rclosed[Src(d)] \/ dl[Src(d)] = "expired" THEN "err" ELSE "eof" IN
+     \/ rclosed[Src(d)]                             \* reading a conn that has been closed on the relay's side
+     \/ RdExpired(Src(d))                           \* i/o timeout: a read deadline in the past fails every Read
+  /\ LET k == IF ep[Src(d)].wr = "err" \/ rclosed[Src(d)] \/ RdExpired(Src(d)) THEN "err" ELSE "eof" IN
        /\ cp' = [cp EXCEPT ![d].pc = "halfclose", ![d].rerr = k]
        /\ BH([a |-> "Read", d |-> d, n |-> 0, end |-> k])
-  /\ UNCHANGED <<shape, ep, bmain, rclosed, dl>>
+  /\ UNCHANGED <<shape, ep, bmain, rclosed, dl, mon>>
 \* dst.Write(buf[:nr]): everything or an error (then leave the loop)
 CWrite(d) ==
   /\ cp[d].pc = "write"
-  /\ IF ep[Dst(d)].rd = "open" /\ ~rclosed[Dst(d)]
+  /\ IF ep[Dst(d)].rd = "open" /\ ~rclosed[Dst(d)] /\ ~WrExpired(Dst(d))
        THEN /\ ep' = [ep EXCEPT ![Dst(d)].got = @ + cp[d].n]
             /\ cp' = [cp EXCEPT ![d].n = 0, ![d].pc = IF cp[d].rerr = "none" THEN "read" ELSE "halfclose"]
+            /\ Moved
        ELSE /\ ep' = ep
             /\ cp' = [cp EXCEPT ![d].n = 0, ![d].werr = TRUE, ![d].pc = "halfclose"]
+            /\ mon' = mon
   /\ BH([a |-> "Write", d |-> d])
   /\ UNCHANGED <<shape, bmain, rclosed, dl>>
 \* tryCloseWrite(dst): see Effect
@@ -205,35 +250,55 @@ CHalfClose(d) ==
   /\ cp[d].pc = "halfclose"
   /\ ep' = [ep EXCEPT ![Dst(d)].eofSeen = @ \/ Cw(Dst(d))]
   /\ rclosed' = [rclosed EXCEPT ![Dst(d)] = @ \/ Effect(shape[Dst(d)]) = "kill"]
-  \* DevDrainDeadline (seeded fault C12/r3m2, not in the code): "the other direction must not wait for
-  \* ever" - an ABSOLUTE read deadline is put on the conn the surviving direction reads from (only
-  \* conns handed over directly can take one: the adapter has no SetReadDeadline)
-  /\ dl' = [dl EXCEPT ![Dst(d)] = IF DevDrainDeadline /\ shape[Dst(d)] \in LocalShapes /\ @ = "none" THEN "armed" ELSE @]
+  \* DevDeadlineAt = "halfclose" (seeded fault C12/r3m2, not in the code): "the other direction must not wait
+  \* for ever" - an ABSOLUTE deadline is put on the conn the surviving direction reads from (Dst(d)) and, for a
+  \* write deadline, on the conn it writes to (Src(d))
+  /\ dl' = IF DevDeadlineAt # "halfclose" THEN dl
+           ELSE [e \in Ends |-> IF e = Dst(d) \/ "write" \in DevDeadlineHits THEN Arm(e, dl[e]) ELSE dl[e]]
   /\ cp' = [cp EXCEPT ![d].pc = "done"]
   /\ BH([a |-> "CloseWrite", d |-> d])
-  /\ UNCHANGED <<shape, bmain>>
+  /\ UNCHANGED <<shape, bmain, mon>>
 Copier(d) == CReadData(d) \/ CReadEnd(d) \/ CWrite(d) \/ CHalfClose(d)
 
-\* wg.Wait(); connA.Close(); connB.Close(); return
+\* wg.Wait(); connA.Close(); connB.Close(); return   (under tunnel.Tunnel: runDataCopy then calls
+\* t.Close, which cancels the context - the monitor goroutine exits)
 BMain == /\ bmain = "wait" /\ \A d \in Dirs : cp[d].pc = "done"
          /\ bmain' = "returned"
          /\ rclosed' = [e \in Ends |-> TRUE]
          /\ BH([a |-> "Return"])
-         /\ UNCHANGED <<shape, ep, cp, dl>>
+         /\ UNCHANGED <<shape, ep, cp, dl, mon>>
 
 \* environment: time passes - an absolute deadline, once set, is eventually in the past no matter how
 \* much traffic flows
 Tick(e) == /\ bmain = "wait" /\ dl[e] = "armed"
            /\ dl' = [dl EXCEPT ![e] = "expired"]
            /\ bhist' = bhist
-           /\ UNCHANGED <<shape, ep, cp, bmain, rclosed>>
+           /\ UNCHANGED <<shape, ep, cp, bmain, rclosed, mon>>
+
+\* ---- tunnel.Tunnel.monitorTimeout (the goroutine next to runDataCopy) --------------------------
+\*   timer := time.NewTimer(idleTimeout); for { select { case <-ctx.Done(): return
+\*     case <-timer.C: if time.Since(lastActivity) >= idleTimeout { t.Close(CloseReasonTimeout) ... }
+\*     case <-t.activityChan: lastActivity = time.Now(); timer.Reset(idleTimeout) } }
+\* environment: one tick of time passes on the monitor's timer
+MonTick == /\ Monitor /\ bmain = "wait" /\ ~mon.fired /\ mon.idle < IdleMax
+           /\ mon' = [mon EXCEPT !.idle = @ + 1, !.quiet = @ + 1]
+           /\ bhist' = bhist
+           /\ UNCHANGED <<shape, ep, cp, bmain, rclosed, dl>>
+\* timer.C with no activity seen for idleTimeout: Tunnel.Close closes localConn and tunnelRWC under
+\* the copiers
+MonFire == /\ Monitor /\ bmain = "wait" /\ ~mon.fired /\ mon.idle = IdleMax
+           /\ mon' = [mon EXCEPT !.fired = TRUE]
+           /\ rclosed' = [e \in Ends |-> TRUE]
+           /\ BH([a |-> "IdleClose"])
+           /\ UNCHANGED <<shape, ep, cp, bmain, dl>>
 
 UFrozen == UNCHANGED uvars
-BNext == (EnvB \/ (\E e \in Ends : Tick(e)) \/ (\E d \in Dirs : Copier(d)) \/ BMain) /\ UFrozen
+BNext == (EnvB \/ (\E e \in Ends : Tick(e)) \/ MonTick \/ MonFire \/ (\E d \in Dirs : Copier(d)) \/ BMain) /\ UFrozen
 
 \* ---- properties -----------------------------------------------------------------------------
 BTypeOK == /\ \A e \in Ends : ep[e].sent \in 0..MaxSend /\ ep[e].got \in 0..MaxSend
            /\ \A d \in Dirs : cp[d].pc \in {"read", "write", "halfclose", "done"}
+           /\ mon.idle \in 0..IdleMax /\ mon.quiet \in 0..mon.idle /\ (mon.fired => Monitor)
 \* byte pipe per direction: what reached the destination is a prefix of what the copier has read,
 \* which is a prefix of what the source has sent (payload = counter stream, so counts suffice)
 BPipe == \A d \in Dirs : /\ ep[Dst(d)].got + cp[d].n <= cp[d].off
@@ -242,16 +307,20 @@ BPipe == \A d \in Dirs : /\ ep[Dst(d)].got + cp[d].n <= cp[d].off
 BComplete == \A d \in Dirs : (cp[d].pc \in {"halfclose", "done"} /\ cp[d].rerr = "eof" /\ ~cp[d].werr)
                                => ep[Dst(d)].got = ep[Src(d)].sent
 \* the relay half-closes a conn only after the direction into it has ended, and fully closes a
-\* conn only after BOTH directions have ended: the reverse direction keeps flowing meanwhile
+\* conn only after BOTH directions have ended (or the tunnel has really been idle for the idle
+\* timeout): the reverse direction keeps flowing meanwhile
 BReverseKeepsFlowing ==
-  /\ \A e \in Ends : rclosed[e] => \A d \in Dirs : cp[d].pc = "done"
+  /\ \A e \in Ends : rclosed[e] => (mon.fired \/ \A d \in Dirs : cp[d].pc = "done")
   /\ \A d \in Dirs : (Cw(Dst(d)) /\ ep[Dst(d)].eofSeen) => cp[d].pc = "done"
   /\ \A d \in Dirs : cp[d].pc \in {"halfclose", "done"} => (cp[d].rerr # "none" \/ cp[d].werr)
 \* ... and a direction never ends unless its own source ended or its own destination failed
-BNoSpuriousEnd == \A d \in Dirs : cp[d].rerr # "none" => ep[Src(d)].wr # "open"
-\* the relay puts no read deadline on a conn whose direction is still live (time alone must never
+BNoSpuriousEnd == \A d \in Dirs : cp[d].rerr # "none" => (ep[Src(d)].wr # "open" \/ mon.fired)
+BNoSpuriousWriteEnd == \A d \in Dirs : cp[d].werr => (ep[Dst(d)].rd = "closed" \/ rclosed[Dst(d)])
+\* the relay puts no deadline on a conn whose direction is still live (time alone must never
 \* end a direction whose source is open)
 BNoDeadline == \A e \in Ends : dl[e] = "none"
+\* the idle monitor closes the tunnel only when no data has moved for the whole idle timeout
+BMonitorOnlyIdle == mon.fired => mon.quiet = IdleMax
 \* nothing is delivered after the relay's own half-close of that conn
 BMonotone == [][\A e \in Ends : /\ ep'[e].got >= ep[e].got
                                 /\ (ep[e].eofSeen /\ Cw(e)) => ep'[e].got = ep[e].got]_bvars
@@ -261,10 +330,10 @@ BFair == /\ \A d \in Dirs : WF_vars(Copier(d) /\ UFrozen)
 \* liveness: once both endpoints have finished sending (EOF or failure), Bidirectional returns
 BTermination == (\A e \in Ends : ep[e].wr # "open") ~> (bmain = "returned")
 \* liveness: after one side half-closed, bytes the other side still sends are delivered as long
-\* as the half-closed side keeps reading
+\* as the half-closed side keeps reading (and the tunnel has not been idle for the idle timeout)
 BReverseDelivered ==
   \A d \in Dirs : \A k \in 1..MaxSend :
-     (ep[Src(d)].sent >= k) ~> (ep[Dst(d)].got >= k \/ ep[Dst(d)].rd = "closed" \/ ep[Src(d)].wr = "err")
+     (ep[Src(d)].sent >= k) ~> (ep[Dst(d)].got >= k \/ ep[Dst(d)].rd = "closed" \/ ep[Src(d)].wr = "err" \/ mon.fired)
 
 (*********************************************************************************************)
 (* (ii) UDP                                                                                  *)
@@ -291,7 +360,8 @@ UNone == {<<>>}
 Stream == Enc(par.t)
 
 G2Init == [pc |-> "read", buf |-> <<>>, stale |-> <<>>, processed |-> 0, pending |-> <<>>, rerr |-> "none", ended |-> FALSE, cont |-> "none"]
-G1Init == [pc |-> "read", mem |-> <<>>, pos |-> 0, dg |-> 0, serr |-> "none"]
+\* dl: DevSockDeadline (not in the code) - an absolute read deadline on the UDP socket, set when g1 starts
+G1Init == [pc |-> "read", mem |-> <<>>, pos |-> 0, dg |-> 0, serr |-> "none", dl |-> IF DevSockDeadline THEN "armed" ELSE "none"]
 NoWrite == [by |-> "none", n |-> 0, cont |-> "none"]
 
 URest == /\ tpos = 0
@@ -462,7 +532,7 @@ Reset(mem) == IF DevAliasFlush THEN mem ELSE <<>>
 \* n, err := udpConn.Read(readBuf)     (outside batchMu)
 G1Read ==
   /\ g1.pc = "read"
-  /\ IF sockClosed
+  /\ IF sockClosed \/ g1.dl = "expired"          \* closed: io.EOF / net.ErrClosed;  expired deadline: i/o timeout
        THEN g1' = [g1 EXCEPT !.pc = "flock"] /\ UNCHANGED upos
        ELSE /\ upos < usent
             /\ upos' = upos + 1
@@ -565,6 +635,12 @@ USend ==
   /\ usent' = usent + 1
   /\ UNCHANGED <<par, tpos, g2, wq, udpGot, g1, lock, tw, upos, tunGot, timerOn, sockClosed, tunHalfClosed, umain, devSpin, devBlocked, devAlias, devDropped>>
 
+\* environment: time passes - an absolute deadline on the UDP socket is eventually in the past
+UTick ==
+  /\ umain = "wait" /\ g1.dl = "armed"
+  /\ g1' = [g1 EXCEPT !.dl = "expired"]
+  /\ UNCHANGED <<par, tpos, g2, wq, udpGot, lock, tw, usent, upos, tunGot, timerOn, sockClosed, tunHalfClosed, umain, devSpin, devBlocked, devAlias, devDropped>>
+
 \* wg.Wait(); udpConn.Close(); tunnelConn.Close(); return
 UMain ==
   /\ umain = "wait" /\ g1.pc = "done" /\ g2.pc = "done"
@@ -573,7 +649,7 @@ UMain ==
   /\ UNCHANGED <<par, tpos, g2, wq, udpGot, g1, lock, tw, usent, upos, tunGot, timerOn, tunHalfClosed, devSpin, devBlocked, devAlias, devDropped>>
 
 BFrozen == UNCHANGED bvars
-UNext == (G1 \/ G2 \/ TimerTake \/ TunnelWriteDone \/ SockSend \/ SockLoopExit \/ USend \/ UMain) /\ BFrozen
+UNext == (G1 \/ G2 \/ TimerTake \/ TunnelWriteDone \/ SockSend \/ SockLoopExit \/ USend \/ UTick \/ UMain) /\ BFrozen
 
 \* ---- properties -----------------------------------------------------------------------------
 UTypeOK == /\ g2.pc \in {"read", "inner", "after", "flush", "compact", "lastflush", "exit", "done"}
@@ -596,6 +672,9 @@ UBatchFits == g2.pc = "flush" => Len(g2.pending) <= BatchSize
 \* datagrams actually read from the socket - however slow the tunnel Write is
 UEncoded == \E k \in 0..upos : tunGot = EncUpTo(par.u, k)
 UFlushed == (g1.pc = "done" /\ g1.serr = "none" /\ ~TunBroken) => tunGot = EncUpTo(par.u, upos)
+\* the socket reader leaves its loop only because the socket has been closed (the tunnel direction has
+\* ended, or an outside Close) or a tunnel Write failed - never because time has passed
+UNoSpuriousEnd == (g1.pc \in {"flock", "f1", "f2", "closing", "done"} /\ g1.serr = "none") => sockClosed
 \* batchMu: a tunnel Write of the ticker excludes the writer goroutine from the batch buffer
 UMutex == (tw.by = "timer" /\ ~DevAliasFlush) => (lock = "timer" /\ g1.pc \notin {"a1", "a2", "a3", "f1", "f2", "write"})
 \* readBuf bookkeeping of the de-framer
